@@ -11,6 +11,8 @@ from bec2format import (
 )
 
 from .ecdsa import ECDH, NIST256p, SigningKey, VerifyingKey
+from .ecdsa.der import UnexpectedDER
+from .ecdsa.errors import MalformedPointError
 from .pyaes import aes, blockfeeder
 
 
@@ -48,7 +50,10 @@ class PublicEccKeyProxy(PublicEccKeyBase):
 
     @classmethod
     def create_from_der_fmt(cls, der_fmt: bytes) -> PublicEccKeyBase:
-        return PublicEccKeyProxy(VerifyingKey.from_der(der_fmt))
+        try:
+            return PublicEccKeyProxy(VerifyingKey.from_der(der_fmt))
+        except (MalformedPointError, UnexpectedDER) as exc:
+            raise ValueError("Invalid public ECC key: " + str(exc))
 
     def to_der_fmt(self) -> bytes:
         return self.public_key.to_der()
